@@ -344,7 +344,7 @@ def cousin(r, v):
         return ("L", items)
     if k == "M":
         es = list(v[1])
-        c = r.below(5)
+        c = r.below(8)
         if es and c < 3:
             i = r.below(len(es))
             es[i] = (es[i][0], cousin(r, es[i][1]))
@@ -352,6 +352,13 @@ def cousin(r, v):
             es = es[1:] + es[:1]
         elif c == 4 and es:
             es = es[:-1]
+        elif c >= 5 and es:
+            # same size, another key set (a key renamed) and / or an entry bound to nil: a missing key and a key bound to
+            # nil must not be confused
+            i = r.below(len(es))
+            free = [k for k in KEYS if k not in [e[0] for e in es]]
+            k2 = r.choice(free) if free and c != 6 else es[i][0]
+            es[i] = (k2, ("n",) if c >= 6 else es[i][1])
         return ("M", es)
     if k == "S":
         items = list(v[1])
